@@ -1,4 +1,5 @@
 import Mkts.Model.Bytes
+import Mkts.Extracted.Skeletons
 /-!
 Column projection on opaque row payloads (`ColumnSeriesMap.FilterColumns` → `ColumnSeries.Project`):
 a payload is the concatenation of the value columns in schema order; projecting to a list of
@@ -24,5 +25,12 @@ def projectPayload (cols : Schema) (want : List String) (payload : Bytes) : Byte
 /-- names actually returned -/
 def projectNames (cols : Schema) (want : List String) : List String :=
   want.filter (fun w => (locate cols w 0).isSome)
+
+/-- does `RestrictionList.AddRestriction` of the CURRENT source treat the list as a set (skip an
+    item that is already listed)?  Read off the regenerated skeleton.  Without it a symbol listed
+    m times has its year files scanned m times (finding C13-F30, repaired). -/
+def restrictionIsSet : Bool :=
+  Mkts.Extracted.Skel.planner_RestrictionList_AddRestriction ==
+    ["range:r[category]{", "if:have == item{", "return", "}", "}", "setidx:r"]
 
 end Mkts.Project
